@@ -25,7 +25,8 @@ From Coq Require Import NArith List Bool.
 Import ListNotations.
 From HV Require Import lib.Harness model.Validity model.Builder spec.BuilderS proofs.BuilderP proofs.BuilderExtP
   spec.BuilderWFS proofs.BuilderFrameP proofs.BuilderRulesP proofs.BuilderTypeP
-  proofs.BuilderAcyclicP proofs.BuilderNonLocalP proofs.BuilderInputsP proofs.BuilderLinearP proofs.BuilderCopyP.
+  proofs.BuilderAcyclicP proofs.BuilderNonLocalP proofs.BuilderInputsP proofs.BuilderLinearP proofs.BuilderCopyP
+  model.Builder2 proofs.Builder2EmbP spec.Builder2WFS proofs.Builder2P proofs.Builder2FrameP proofs.Builder2RulesP proofs.Builder2TypeP proofs.Builder2NonLocalP.
 
 (* Proved for ALL programs of the modelled language, with no well-formedness premise: whenever the
    builder calls do not raise, the serialised document satisfies
@@ -174,3 +175,141 @@ Print Assumptions C01_builder_valid.
 Theorem C01_wf_premises_example : wf_prog ex2_tys ex2_prog = true /\ r_table ex2_tys = true.
 Proof. exact ex2_wf. Qed.
 Print Assumptions C01_wf_premises_example.
+
+(* ==================================================================== third pass: the extended builder language
+   model/Builder2.v widens the statement language by TailLoop (add_tail_loop ... set_loop_outputs), Conditional
+   (add_conditional / add_case in any order / add_if + add_else), every insert_* variant through
+   _insert_nested_impl + Hugr.insert_hugr (a separately built Dfg / TailLoop / Conditional program), CallIndirect,
+   and the roots TailLoop(...) and Conditional(...).  `run2` is its interpreter.  Builder.v and every theorem above
+   are unchanged. *)
+
+(* the extended model is conservative: the embedding of a program of the first language runs to the same result
+   (the same document or the same error), for every program and every type table *)
+Theorem C01_builder2_conservative : forall tys p, run2 tys (emb p) = run tys p.
+Proof. exact run2_emb. Qed.
+Print Assumptions C01_builder2_conservative.
+
+(* so all theorems above transfer to run2 on embedded programs; the full validity theorem restated: *)
+Theorem C01_builder2_valid_embedded : forall tys p g,
+  r_table tys = true -> wf_prog tys p = true -> run2 tys (emb p) = Ok g ->
+  valid {| v_tys := tys; v_main := g; v_subs := [] |} = true.
+Proof. exact run2_emb_valid. Qed.
+Print Assumptions C01_builder2_valid_embedded.
+
+(* Third pass.  The structural rules for ALL programs of the EXTENDED language (mutual induction over statements,
+   regions, statement lists, case lists and separately built programs; no depth bound): whenever the builder calls
+   do not raise, the serialised document satisfies
+     r_index        : node 0 is the root, every other parent is an earlier node, edge endpoints exist
+                      (insert_hugr re-indexes the inserted nodes and links consistently);
+     r_child_tags   : only permitted parent/child pairs (Case only under Conditional, Conditional / TailLoop / DFG
+                      under dataflow parents, the root of an inserted program under the inserting container);
+     r_first_second : Input first and Output second in every DFG / Case / TailLoop, no other Input/Output, and every
+                      Conditional has at least one Case (a Conditional over an empty sum never completes: the model,
+                      like hugr-py, fails at serialisation).
+   Premise croot_ok (spec/Builder2WFS.v, computed from the program text): no constant is placed at the root of a
+   Hugr that is rooted in a Conditional.  For rules 3-17 see below: proved for the embedded language only, monitored
+   for the rest of the extended language. *)
+Theorem C01_builder2_structural : forall tys p g,
+  croot_ok p = true -> run2 tys p = Ok g ->
+  r_index g = true /\ r_child_tags g = true /\ r_first_second g = true.
+Proof. exact run2_structural. Qed.
+Print Assumptions C01_builder2_structural.
+
+(* the premise is needed: hugr-py puts a constant under a Conditional root when asked to *)
+Theorem C01_const_under_conditional_refuted : croot_ok ex_croot = false /\
+  exists g, run2 ex_croot_tys ex_croot = Ok g /\ r_child_tags g = false.
+Proof. exact ex_croot_refuted. Qed.
+Print Assumptions C01_const_under_conditional_refuted.
+
+(* non-vacuity for the extended language: a program with a tail loop, a conditional whose cases are built in the
+   order 1, 0, and an inserted Dfg runs in the model; the whole `valid` accepts its document (19 nodes) *)
+Theorem C01_builder2_example : croot_ok ex4_prog = true /\ exists g, run2 ex4_tys ex4_prog = Ok g /\
+  valid {| v_tys := ex4_tys; v_main := g; v_subs := [] |} = true /\ length (g_nodes g) = 19%nat /\
+  existsb (fun n => match n_op n with TailLoop _ _ _ _ => true | _ => false end) (g_nodes g) = true /\
+  existsb (fun n => match n_op n with Conditional _ _ _ _ => true | _ => false end) (g_nodes g) = true.
+Proof. exact ex4_runs. Qed.
+Print Assumptions C01_builder2_example.
+
+(* Third pass.  For ALL programs of the extended language (premise croot_ok only): rule 6 (no edge touches the root:
+   the interpreter's environment never names the root, insert_hugr shifts every inserted link above the insertion
+   point), rule 13 (no FuncDefn occurs, so no value edge enters a function body), rule 16 (no control-flow edges). *)
+Theorem C01_builder2_root_func_cfg : forall tys p g,
+  croot_ok p = true -> run2 tys p = Ok g ->
+  r_root_no_edges g = true /\ r_no_edge_into_func tys g = true /\ r_cfg_edges g = true.
+Proof. exact run2_root_func_cfg. Qed.
+Print Assumptions C01_builder2_root_func_cfg.
+
+(* Third pass.  For every WELL-TYPED program of the EXTENDED language (spec/Builder2WFS.v: wt_prog2, a boolean computed
+   from the program text: wires bound, typed and alive — the wires and statements of a separately built program are
+   dead outside it and the enclosing program's are dead inside —, arguments of fixed-signature operations / Tags /
+   CallIndirect / inserted programs have the right input row, a loop body outputs Sum [just_inputs; just_outputs] ::
+   rest, all cases of a conditional give the same outputs, Tags and constants agree with the type table,
+   add_state_order joins live statements) whose builder calls do not raise:
+     r_io_rows (rule 3)       : Input/Output rows of every DFG, Case and TailLoop body (Sum(just_in, just_out) + rest),
+                                the Case children of every Conditional (variant i + other inputs, common outputs);
+     r_derived_types (rule 4) : the sum types of Tag, Conditional, TailLoop and the function type of CallIndirect;
+     r_port_counts (rule 5), r_edge_kinds (rule 7) : every edge attaches to existing ports of equal kind and type, also the
+                                re-indexed edges of inserted programs and the wires into TailLoop / Conditional / inserted
+                                roots;
+     r_const (rule 17)        : constants inhabit their type.
+   Rule 8 and rules 12, 14, 15 follow below; rules 9, 10, 11 are proved for the embedded language only
+   (C01_builder2_valid_embedded) and monitored for the rest of the extended language. *)
+Theorem C01_builder2_typed_rules : forall tys p g,
+  wt_prog2 tys p = true -> croot_ok p = true -> run2 tys p = Ok g ->
+  r_io_rows g = true /\ r_derived_types tys g = true /\ r_port_counts g = true /\ r_edge_kinds g = true /\
+  r_const tys [] g = true.
+Proof. exact run2_typed_rules. Qed.
+Print Assumptions C01_builder2_typed_rules.
+
+(* the example with a loop, a conditional and an inserted Dfg satisfies the premises *)
+Theorem C01_builder2_example_wt : wt_prog2 ex4_tys ex4_prog = true /\ croot_ok ex4_prog = true.
+Proof. exact (conj ex4_wt (proj1 ex4_runs)). Qed.
+Print Assumptions C01_builder2_example_wt.
+
+(* the typing premise is needed: hugr-py accepts a TailLoop body whose remaining outputs are not the loop's `rest`
+   row (TailLoop._set_out_types asserts the first variant row only); the document then breaks rule 3 *)
+Theorem C01_loop_rest_refuted : wt_prog2 ex_rest_tys ex_rest = false /\ croot_ok ex_rest = true /\
+  exists g, run2 ex_rest_tys ex_rest = Ok g /\ r_io_rows g = false.
+Proof. exact ex_rest_refuted. Qed.
+Print Assumptions C01_loop_rest_refuted.
+
+(* Third pass.  r_inputs_once (rule 8) for every well-typed program of the EXTENDED language: every value / static
+   input port of every non-root node has exactly one link — the ports of TailLoop / Conditional / CallIndirect nodes and
+   of the root of an inserted program are wired once each by _wire_up, the Output node of every region by set_outputs,
+   and insert_hugr re-indexes the inner program's links one to one (no inner link touches the inner root). *)
+Theorem C01_builder2_inputs_once : forall tys p g,
+  wt_prog2 tys p = true -> croot_ok p = true -> run2 tys p = Ok g -> r_inputs_once g = true.
+Proof. exact run2_inputs_once. Qed.
+Print Assumptions C01_builder2_inputs_once.
+
+(* Third pass.  For ALL programs of the extended language (premise croot_ok only), the non-local edges:
+     r_ext_order_edge (rule 14)    : every value edge that enters a nested region — a DFG, a TailLoop body, a Case of a
+                                     Conditional, at any depth, also inside and into inserted programs — has its state-order
+                                     edge from the source to the sibling ancestor of the target;
+     r_nonlocal_relation (rule 12) : every non-local edge is an Ext edge or a static edge from an enclosing region;
+     r_dominance (rule 15)         : no edge is classified as a Dom edge.
+   Store level: ExtOrder and ConstLinks are invariants of exec2 (Hugr.insert_hugr keeps the ancestor relations of the
+   re-indexed links); then the bridge to the validator's fuelled ancestor walk on the serialised document. *)
+Theorem C01_builder2_nonlocal_edges : forall tys p g,
+  croot_ok p = true -> run2 tys p = Ok g ->
+  r_nonlocal_relation tys g = true /\ r_ext_order_edge tys g = true /\ r_dominance tys g = true.
+Proof. exact run2_nonlocal. Qed.
+Print Assumptions C01_builder2_nonlocal_edges.
+
+(* non-vacuity: a conditional whose cases use a wire of the enclosing region, one of them through an inserted Dfg:
+   the premises hold, `valid` accepts the document, and it has a good non-local value edge *)
+Theorem C01_builder2_nonlocal_example : croot_ok ex5_prog = true /\ wt_prog2 ex5_tys ex5_prog = true /\
+  exists g, run2 ex5_tys ex5_prog = Ok g /\
+  valid {| v_tys := ex5_tys; v_main := g; v_subs := [] |} = true /\
+  existsb (fun r => ecode_eqb (classify ex5_tys g (redges g) r) EOk && negb (is_static (r_kind r))) (redges g) = true.
+Proof. exact ex5_nonlocal. Qed.
+Print Assumptions C01_builder2_nonlocal_example.
+
+(* Rule 10 (acyclic regions) is NOT claimed for the extended language, and cannot be without a liveness premise on
+   wires: a program that uses, inside a case of a Conditional under construction, the dead wire of a previously inserted
+   program (it names the node index of the Conditional in the enclosing Hugr) runs without any builder call raising
+   and its document has a cycle.  wt_prog2 rejects it; the program contains no add_state_order. *)
+Theorem C01_dead_wire_cycle_refuted : croot_ok ex6_prog = true /\ wt_prog2 ex6_tys ex6_prog = false /\
+  exists g, run2 ex6_tys ex6_prog = Ok g /\ r_acyclic g = false.
+Proof. exact ex6_dead_wire_cycle. Qed.
+Print Assumptions C01_dead_wire_cycle_refuted.
